@@ -149,6 +149,13 @@ impl Exec for AmapExec {
         let sh = Arc::new(Shared { m: Mutex::new(St::default()), cv: Condvar::new() });
         set_atomic_hook(Some(sh.clone()));
         let mut out: Vec<Value> = Vec::new();
+        // exhaustive mode: depth-first enumeration of the scheduler's decisions (every choice among the threads parked at
+        // a schedule point), up to `schedules` runs; otherwise a seeded random choice at every decision
+        let exhaustive = line["a"]["exhaustive"].as_bool().unwrap_or(false);
+        let grace = Duration::from_millis(if exhaustive { 8 } else { 4 });
+        let mut path: Vec<(Vec<usize>, usize)> = Vec::new();
+        let mut diverged = 0u64;
+        let mut complete = false;
         for sched in 0..nsched {
             {
                 let mut st = sh.m.lock().unwrap();
@@ -172,7 +179,8 @@ impl Exec for AmapExec {
                     sh.cv.notify_all();
                 }));
             }
-            // controller: seeded random choice among the threads parked at a point
+            // controller
+            let mut depth = 0usize;
             loop {
                 let mut st = sh.m.lock().unwrap();
                 let mut last_change = Instant::now();
@@ -188,7 +196,7 @@ impl Exec for AmapExec {
                     if now_sig != sig {
                         sig = now_sig;
                         last_change = Instant::now();
-                    } else if st.turn.is_none() && last_change.elapsed() > Duration::from_millis(4) && (0..n).any(|t| st.parked[t]) {
+                    } else if st.turn.is_none() && last_change.elapsed() > grace && (0..n).any(|t| st.parked[t]) {
                         break; // the others are blocked (update mutex): schedule among the parked ones
                     }
                 }
@@ -199,8 +207,22 @@ impl Exec for AmapExec {
                     }
                     continue;
                 }
-                seed = seed.wrapping_mul(6364136223846793005).wrapping_add(1442695040888963407);
-                let c = enabled[((seed >> 33) as usize) % enabled.len()];
+                let c = if exhaustive {
+                    if depth < path.len() && path[depth].0 != enabled {
+                        // the enabled set is not what the replayed prefix saw (blocked-detection is time based):
+                        // forget the rest of the prefix and carry on from here
+                        diverged += 1;
+                        path.truncate(depth);
+                    }
+                    if depth == path.len() {
+                        path.push((enabled.clone(), 0));
+                    }
+                    enabled[path[depth].1]
+                } else {
+                    seed = seed.wrapping_mul(6364136223846793005).wrapping_add(1442695040888963407);
+                    enabled[((seed >> 33) as usize) % enabled.len()]
+                };
+                depth += 1;
                 st.turn = Some(c);
                 sh.cv.notify_all();
             }
@@ -208,12 +230,29 @@ impl Exec for AmapExec {
                 j.join().expect("harness: join");
             }
             let log = std::mem::take(&mut sh.m.lock().unwrap().log);
-            out.push(json!({"op": "init", "a": {"threads": line["a"]["threads"], "sched": sched + 1}}));
+            out.push(json!({"op": "init", "a": {"threads": line["a"]["threads"], "sched": sched + 1, "exhaustive": exhaustive}}));
             for e in log {
                 out.push(json!({"op": "step", "a": e}));
             }
             let fin = observe(&atomic.memory());
-            out.push(json!({"op": "final", "a": {"obs": fin}}));
+            if exhaustive {
+                // next schedule: advance the deepest decision that still has an untried alternative
+                path.truncate(depth);
+                while let Some((en, idx)) = path.last() {
+                    if idx + 1 < en.len() {
+                        break;
+                    }
+                    path.pop();
+                }
+                match path.last_mut() {
+                    Some(d) => d.1 += 1,
+                    None => complete = true,
+                }
+            }
+            out.push(json!({"op": "final", "a": {"obs": fin, "dfs_complete": complete, "diverged": diverged}}));
+            if complete {
+                break;
+            }
         }
         set_atomic_hook(None);
         Value::Array(out)
